@@ -218,6 +218,29 @@ def session_history(seed):
                 for kind in ("cutvalue", "cutvalue", "cutvalue", "textlen", "inflate", "truncate", "type", "flip",
                              "transparent", "emptystring"):
                     frames.append(sg.mutate(fr, kind)[0])
+    # requests whose header carries an Authentication with a PASSWORD (Username and Password, and the Device credential -
+    # which has a password field too), on items the server serves, refuses, cannot decode (operations it has no payload
+    # class for) and on frames corrupted after the header
+    for v in (10, 12, 14, 20):
+        for dev in (False, True):
+            pw = "".join(chr(r.randrange(97, 123)) for _ in range(18))
+            secrets.add(pw.encode().hex())
+            cred = {"u": "dev-7" if dev else "alice", "p": pw}
+            if dev:
+                cred.update(dev=True, serial="SN-%d" % r.randrange(10 ** 6), net="10.0.0.%d" % r.randrange(255))
+            for it in ({"op": "query", "bid": None, "crypto": None, "functions": [1, 2]},
+                       {"op": "get", "bid": None, "crypto": None, "uid": "1", "format": None, "compression": False, "wrap": None},
+                       {"op": "unsupported", "bid": None, "crypto": None, "code": r.choice([21, 22, 4, 9, 13])},
+                       {"op": "activate", "bid": None, "crypto": None, "uid": "999"}):
+                rq = G.mkreq(v, [it])
+                rq["cred"] = cred
+                try:
+                    fr = G.encode_request(rq)
+                except Exception:
+                    continue
+                frames.append(fr)
+                for kind in ("truncate", "type", "tag", "flip", "itemcut", "count"):
+                    frames.append(sg.mutate(fr, kind)[0])
     # every stored key is then asked for, with and without a Maximum Response Size too small for the answer (the
     # session then holds an encoded response full of key material that it must not send - nor log)
     for uid in range(1, 14):
